@@ -171,19 +171,33 @@ func (f *Full) Start(loops ...string) {
 	f.ErrCh = make(chan error, 8)
 	f.stopped = false
 	m := f.N.M
+	errCh := f.ErrCh
+	// a panic inside a loop would take the whole node down: it is reported like a loop error
+	guard := func(name string, fn func()) {
+		defer f.wg.Done()
+		defer func() {
+			if r := recover(); r != nil {
+				select {
+				case errCh <- fmt.Errorf("panic in %s: %v", name, r):
+				default:
+				}
+			}
+		}()
+		fn()
+	}
 	for _, l := range loops {
 		f.wg.Add(1)
 		switch l {
 		case "sync":
-			go func() { defer f.wg.Done(); m.SyncLoop(ctx, f.ErrCh) }()
+			go guard("SyncLoop", func() { m.SyncLoop(ctx, errCh) })
 		case "retrieve":
-			go func() { defer f.wg.Done(); m.RetrieveLoop(ctx) }()
+			go guard("RetrieveLoop", func() { m.RetrieveLoop(ctx) })
 		case "hstore":
-			go func() { defer f.wg.Done(); m.HeaderStoreRetrieveLoop(ctx) }()
+			go guard("HeaderStoreRetrieveLoop", func() { m.HeaderStoreRetrieveLoop(ctx) })
 		case "dstore":
-			go func() { defer f.wg.Done(); m.DataStoreRetrieveLoop(ctx) }()
+			go guard("DataStoreRetrieveLoop", func() { m.DataStoreRetrieveLoop(ctx) })
 		case "includer":
-			go func() { defer f.wg.Done(); m.DAIncluderLoop(ctx, f.ErrCh) }()
+			go guard("DAIncluderLoop", func() { m.DAIncluderLoop(ctx, errCh) })
 		default:
 			f.wg.Done()
 		}
